@@ -156,6 +156,13 @@ def gen_cases(tier, seed):
             one(["d_match", ["s", 0], [G._binpat(w, v)] if lo <= v < hi else [], [v]])
         if w >= 1:
             one(["d_match", ["s", 0], [G._binpat(w, lo), "1" * w], [lo, "1" * w]])
+        # rejected pattern strings at top level: wrong width, illegal characters, also next to a legal pattern
+        okp = "1" * w
+        for bad in (okp + "0", okp[1:] if w else "0", "x" * max(1, w), okp + "_", okp + " 1", "2" + okp[1:] if w else "2"):
+            one(["d_match", ["s", 0], [], [bad]])
+            one(["d_match", ["s", 0], [], [okp, bad]])
+        for ws in (" ", "\t", "  "):
+            one(["d_match", ["s", 0], [okp], [ws + okp + ws if w else ws]])
         # every Python slice object over small bounds (None, negative, beyond the ends) and steps
         bounds = [None] + list(range(-w - 1, w + 2))
         for a in bounds:
